@@ -7,6 +7,8 @@
 import UnytModel.DriverBase
 import UnytModel.C14Check
 import UnytModel.NameGen
+import UnytModel.NamesHistoryC14
+import UnytModel.Generated.C14RegCfg
 
 namespace Unyt
 open Unyt.Names Unyt.C14 Unyt.Generated.C14
@@ -35,6 +37,59 @@ def verdictOut (s : Name) : String :=
   | .unique k c => s!"unique\t{k}\t{showName c}\t{allS}"
 
 def findRow (n : Name) : Option NameRow := allRows.find? fun r => r.name == n
+
+/-! #### registry histories (`UnytModel/NamesHistoryC14.lean`) -/
+
+/-- one request of a history: a unit STRING (parser rewrites + alias table, then the look-up), or an
+    operation of the state machine itself -/
+inductive HReq
+  | unit (name : Name)
+  | op (o : NamesHist.Op Float)
+
+/-- wire: `U:<string>` `K:<symbol>` `A:<scale bits>:<0|1 prefixable>:<default key whose dimension is used>:<symbol>`
+    `R:<symbol>` `M:<scale bits>:<symbol>` `J` (save/load) `C` (deep copy) -/
+def parseHReq (f : String) : Option HReq :=
+  match f.splitOn ":" with
+  | ["J"] => some (.op .reload)
+  | ["C"] => some (.op .copy)
+  | "U" :: rest => some (.unit (Name.ofString (":".intercalate rest)))
+  | "K" :: rest => some (.op (.look (Name.ofString (":".intercalate rest))))
+  | "R" :: rest => some (.op (.remove (Name.ofString (":".intercalate rest))))
+  | "M" :: b :: rest =>
+    match floatOfBitsStr b with
+    | some v => some (.op (.modify (Name.ofString (":".intercalate rest)) v))
+    | none => none
+  | "A" :: b :: p :: d :: rest =>
+    match floatOfBitsStr b, ctxF.lut.get? (Name.ofString d) with
+    | some v, some row =>
+      some (.op (.add (Name.ofString (":".intercalate rest)) { scale := v, dim := row.dim, offset := 0.0, prefixable := p == "1" }))
+    | _, _ => none
+  | _ => none
+
+def entryOut (e : Entry Float) : String :=
+  s!"e:{bitsStr e.scale}:{bitsStr e.offset}:{e.dim.str}:{if e.prefixable then 1 else 0}"
+
+def outOut : NamesHist.Out Float → String
+  | .entry (some e) => entryOut e
+  | .entry none => "none"
+  | .done => "done"
+  | .missing => "missing"
+
+def HReq.toOp : HReq → NamesHist.OpS Float
+  | .unit n => .unit n
+  | .op o => .op o
+
+def outSOut : NamesHist.OutS Float → String
+  | .unit (some (.sym s e)) => Name.toString s ++ "=" ++ entryOut e
+  | .unit (some .one) => "one"
+  | .unit none => "none"
+  | .out o => outOut o
+
+/-- run the requests through `NamesHist.runS` (string cache, look-up with write-back, edits, reloads)
+    with the live configurations; one answer per request -/
+def runHist (c : Ctx Float) (r : NamesHist.RegS Float) (reqs : List HReq) : NamesHist.RegS Float × List String :=
+  let (r2, outs) := NamesHist.runS regCfg regCacheCfg ⟨c.globals, c.inv, c.rewritten, c.pre⟩ c.lut r (reqs.map HReq.toOp)
+  (r2, outs.map outSOut)
 
 end C14Ops
 
@@ -67,6 +122,16 @@ def opsC14 : Handler := fun st fields =>
         | some e => some (st, s!"ok\t{readingOut rd}\t{bitsStr e.scale}\t{bitsStr e.offset}\t{e.dim.str}")
         | none => some (st, s!"ok\t{readingOut rd}\tnone")
       | _ => some (st, s!"ok\t{readingOut rd}")
+  -- a history on a registry that starts from the default table (`full`) or from nothing (`empty`)
+  | "c14.hist" :: start :: reqs =>
+    let base : Option (Dict (Entry Float)) :=
+      if start == "full" then some ctxF.lut else if start == "empty" then some .leaf else none
+    match base, reqs.mapM parseHReq with
+    | some b, some rs =>
+      let (r, outs) := runHist ctxF (NamesHist.freshS b) rs
+      let der := ",".intercalate (r.reg.derived.map Name.toString)
+      some (st, "ok\t" ++ der ++ "\t" ++ "\t".intercalate outs)
+    | _, _ => some (st, "bad-request")
   | ["c14.ref", name] => some (st, verdictOut (Name.ofString name))
   -- translator self-check: the generated row of a listed name
   | ["c14.row", name] =>
